@@ -24,6 +24,7 @@ import (
 	"sort"
 	"strings"
 
+	"com.tuntun.rangers/node/src/consensus/base"
 	"com.tuntun.rangers/node/src/consensus/groupsig"
 	bn "com.tuntun.rangers/node/src/consensus/groupsig/bn256"
 	"verif/harness/hx"
@@ -501,6 +502,93 @@ func exec(line string) string {
 			return "bad-op"
 		}
 		return hx.Hex(hashG1(msg).Marshal())
+	case w[0] == "j2lin" && len(w) == 5:
+		a, ok1 := pt2Of(w[1])
+		k1, ok2 := bigDec(w[2])
+		b, ok3 := pt2Of(w[3])
+		k2, ok4 := bigDec(w[4])
+		if !ok1 || !ok2 || !ok3 || !ok4 {
+			return "bad-op"
+		}
+		mk := func() *bn.G2 { return new(bn.G2).ScalarMult(a, k1) }
+		sum := new(bn.G2).Add(mk(), new(bn.G2).ScalarMult(b, k2)).Marshal()
+		ng := new(bn.G2).Neg(mk()).Marshal()
+		db := new(bn.G2).Add(mk(), mk()).Marshal()
+		return hx.Hex(sum) + " " + hx.Hex(ng) + " " + hx.Hex(db)
+	case (w[0] == "sigeq" || w[0] == "pkeq") && len(w) == 3:
+		b1, ok1 := unhex(w[1])
+		b2, ok2 := unhex(w[2])
+		if !ok1 || !ok2 {
+			return "bad-op"
+		}
+		if w[0] == "sigeq" {
+			return b01(groupsig.DeserializeSign(b1).IsEqual(*groupsig.DeserializeSign(b2)))
+		}
+		return b01(groupsig.ByteToPublicKey(b1).IsEqual(groupsig.ByteToPublicKey(b2)))
+	case w[0] == "scpred" && len(w) == 3:
+		a, ok1 := bigDec(w[1])
+		b, ok2 := bigDec(w[2])
+		if !ok1 || !ok2 {
+			return "bad-op"
+		}
+		sa, sb := seckeyOf(a), seckeyOf(b)
+		var ia, ib groupsig.ID
+		ia.SetBigInt(a)
+		ib.SetBigInt(b)
+		if sa.IsValid() != ia.IsValid() || sa.IsEqual(sb) != ia.IsEqual(ib) {
+			return "seckey-id-disagree"
+		}
+		return "valid=" + b01(sa.IsValid()) + " eq=" + b01(sa.IsEqual(sb))
+	case w[0] == "skagg":
+		var secs []groupsig.Seckey
+		for _, t := range w[1:] {
+			k, ok := bigDec(t)
+			if !ok {
+				return "bad-op"
+			}
+			secs = append(secs, seckeyOf(k))
+		}
+		agg := groupsig.AggregateSeckeys(secs)
+		if agg == nil {
+			return "nil"
+		}
+		return agg.GetBigInt().String()
+	case w[0] == "skrand" && len(w) == 2:
+		b, ok := unhex(w[1])
+		if !ok || len(b) != 32 {
+			return "bad-op"
+		}
+		var rnd base.Rand
+		copy(rnd[:], b)
+		return groupsig.NewSeckeyFromRand(rnd).GetBigInt().String()
+	case w[0] == "newid" && len(w) == 2:
+		b, ok := unhex(w[1])
+		if !ok {
+			return "bad-op"
+		}
+		pk := groupsig.ByteToPublicKey(b)
+		id := groupsig.NewIDFromPubkey(pk)
+		ad := pk.GetAddress()
+		return id.GetBigInt().String() + " addr=" + hx.Hex(ad[:])
+	case w[0] == "idaddr" && len(w) == 2:
+		k, ok := bigDec(w[1])
+		if !ok {
+			return "bad-op"
+		}
+		var id groupsig.ID
+		id.SetBigInt(k)
+		ad := id.ToAddress()
+		return hx.Hex(ad[:])
+	case w[0] == "shorts" && len(w) == 3:
+		b, ok := unhex(w[2])
+		if !ok {
+			return "bad-op"
+		}
+		if w[1] == "sig" {
+			return groupsig.DeserializeSign(b).ShortS()
+		}
+		pk := groupsig.ByteToPublicKey(b)
+		return pk.ShortS()
 	case (w[0] == "skhex" || w[0] == "idhex" || w[0] == "idjson") && len(w) == 2:
 		k, ok := bigDec(w[1])
 		if !ok {
@@ -1424,6 +1512,59 @@ func runCorr(a map[string]string) {
 		do("pkhex -")
 		do("pkhex 00")
 	}
+	// 3c. predicates, derived ids / addresses, secret-key construction and aggregation, G2 Jacobian
+	for i := 0; i < 6+nmisc/20; i++ {
+		sk1, sk2 := g.sk(), g.sk()
+		m := g.msgClass(i % 8)
+		s1 := groupsig.Sign(seckeyOf(sk1), m)
+		s2 := groupsig.Sign(seckeyOf(sk2), m)
+		b1, b2 := s1.Serialize(), s2.Serialize()
+		p1 := groupsig.GeneratePubkey(seckeyOf(sk1)).Serialize()
+		p2 := groupsig.GeneratePubkey(seckeyOf(sk2)).Serialize()
+		for _, pr := range [][2][]byte{{b1, b1}, {b1, b2}, {b1, append(append([]byte{}, b1...), 1)}, {b1, {}}, {{}, make([]byte, 64)}, {{}, {}}, {b1, b1[:63]}} {
+			do("sigeq " + hx.Hex(pr[0]) + " " + hx.Hex(pr[1]))
+		}
+		for _, pr := range [][2][]byte{{p1, p1}, {p1, p2}, {p1, append(append([]byte{}, p1...), 1)}, {p1, {}}, {{}, {0}}, {{}, make([]byte, 128)}} {
+			do("pkeq " + hx.Hex(pr[0]) + " " + hx.Hex(pr[1]))
+		}
+		do("scpred " + sk1.String() + " " + sk2.String())
+		do("scpred " + sk1.String() + " " + sk1.String())
+		do("scpred 0 " + sk1.String())
+		do("scpred 0 0")
+		do("skagg " + sk1.String() + " " + sk2.String() + " " + g.scalar().String())
+		do("skagg " + sk1.String() + " " + new(big.Int).Sub(bigR, sk1).String()) // sums to 0: the invalid key
+		do("skagg " + sk1.String())
+		sd := r.Bytes(32)
+		if i%3 == 0 {
+			sd = pad32(new(big.Int).Add(bigR, big.NewInt(int64(r.Intn(3)-1)))) // seed ≡ -1, 0, 1 (mod r)
+		}
+		do("skrand " + hx.Hex(sd))
+		do("newid " + hx.Hex(p1))
+		do("idaddr " + g.scalar().String())
+		do("idaddr " + big.NewInt(int64(r.Intn(1000))).String())
+		do("shorts sig " + hx.Hex(b1))
+		do("shorts pk " + hx.Hex(p1))
+		q1 := hx.Hex(p1)
+		q2 := hx.Hex(p2)
+		k1, k2 := g.scalar(), g.scalar()
+		switch i % 4 {
+		case 0:
+			q2 = q1
+		case 1:
+			q2, k2 = q1, new(big.Int).Sub(bigR, new(big.Int).Mod(k1, bigR))
+		case 2:
+			k2 = big.NewInt(0)
+		}
+		if i < 6 {
+			do("j2lin " + q1 + " " + k1.String() + " " + q2 + " " + k2.String())
+		}
+	}
+	do("skagg")
+	do("newid -")
+	do("newid " + hx.Hex(make([]byte, 128)))
+	do("shorts sig -")
+	do("shorts pk -")
+	do("idaddr " + new(big.Int).Lsh(big.NewInt(1), 256).String())
 	// 4. scalars and ids
 	for i := 0; i < nmisc; i++ {
 		v := g.scalar()
